@@ -432,6 +432,32 @@ theorem leList_get {a b : List V} (h : leList a b = true) {i : Nat} {x : V} (hx 
       | zero => simp at hx; subst hx; exact ⟨y0, by simp, h.1⟩
       | succ i => simp at hx; simpa using ih h.2 hx
 
+theorem leList_length {a b : List V} (h : leList a b = true) : a.length = b.length := by
+  induction a generalizing b with
+  | nil => cases b with
+    | nil => rfl
+    | cons _ _ => simp [leList] at h
+  | cons x0 xs ih =>
+    cases b with
+    | nil => simp [leList] at h
+    | cons y0 ys =>
+      simp [leList] at h
+      simp [ih h.2]
+
+theorem leList_seqAt {a b : List V} (h : leList a b = true) {s : String} {i : Nat} {x : V} (hx : seqAt? s i a = some x) :
+    ∃ y, seqAt? s i b = some y ∧ V.le x y = true := by
+  unfold seqAt? at hx ⊢
+  rw [← leList_length h]
+  split at hx
+  · split at hx
+    · rename_i h1 h2
+      simp only [h1, h2, if_true]
+      exact leList_get h hx
+    · simp at hx
+  · rename_i h1
+    simp only [h1]
+    exact leList_get h hx
+
 theorem le_step {a b : V} (h : V.le a b = true) {s : String} {x : V} (hs : step s a = .found x) :
     ∃ y, step s b = .found y ∧ V.le x y = true := by
   cases a with
@@ -455,11 +481,11 @@ theorem le_step {a b : V} (h : V.le a b = true) {s : String} {x : V} (hs : step 
     | none => simp [hi] at hs
     | some i =>
       simp only [hi] at hs ⊢
-      cases hl : xs[i]? with
+      cases hl : seqAt? s i xs with
       | none => simp [hl] at hs
       | some v =>
         simp [hl] at hs; subst hs
-        obtain ⟨w, hw, hle⟩ := leList_get hb hl
+        obtain ⟨w, hw, hle⟩ := leList_seqAt hb hl
         exact ⟨w, by simp [hw], hle⟩
   | str t =>
     have hb : b = .str t := by
@@ -472,7 +498,7 @@ theorem le_step {a b : V} (h : V.le a b = true) {s : String} {x : V} (hs : step 
     | none => simp [hi] at hs
     | some i =>
       simp only [hi] at hs
-      cases hl : t.toList[i]? with
+      cases hl : seqAt? s i t.toList with
       | none => simp [hl] at hs
       | some c => simp [hl] at hs; subst hs; simp [V.le]
   | none => simp [step] at hs
